@@ -541,6 +541,15 @@ impl HashColumn {
 		if tables.ref_count.is_some() {
 			tables.get_ref_count().flush()?;
 		}
+		// Tables being reindexed still hold entries that exist nowhere else, written while
+		// they were current: they must be durable before the logs that wrote them are dropped.
+		let reindex = self.reindex.read();
+		for entry in reindex.queue.iter() {
+			match entry {
+				ReindexEntry::Index(table) => table.flush()?,
+				ReindexEntry::RefCount(table) => table.flush()?,
+			}
+		}
 		Ok(())
 	}
 
